@@ -2,6 +2,7 @@
 //! traces. It contains no oracle: expected behaviour comes from the TLA+ specification (TLC).
 
 mod common;
+mod conc;
 mod engine;
 mod explore;
 mod fixtures_gen;
@@ -26,6 +27,7 @@ fn main() {
         "explore" => explore::cmd_explore(rest),
         "macro" => macrorun::cmd_macro(rest),
         "keys" => keyfix::cmd_keys(rest),
+        "conc" => conc::cmd_conc(rest),
         other => {
             eprintln!("unknown subcommand {}", other);
             2
